@@ -297,10 +297,17 @@ func vBuildSmallTrees() (int, []string) {
 			}
 		}
 	}
+	// spans far beyond any table: the HTML Standard clamps colspan and the span of columns to 1000 and rowspan to 65534
+	for _, collapse := range []string{"", ` style="border-collapse: collapse"`} {
+		for _, attrs := range []string{` colspan="2000000000"`, ` colspan="2000000000" rowspan="2"`, ` rowspan="2000000000"`, ` rowspan="2000000000" colspan="3"`} {
+			build("huge span"+collapse+attrs, "<table"+collapse+"><tr><td"+attrs+">a</td><td>b</td></tr><tr><td>c</td></tr></table>")
+		}
+		build("huge col span"+collapse, "<table"+collapse+`><col span="2000000000"><colgroup span="2000000000"></colgroup><tr><td>a</td></tr></table>`)
+	}
 	return n, fails
 }
 
-//@ bounded vBuildSmallTrees BuildFormattingStructure on every document of three elements (chain and fork) over 15 display values, with separated and collapsed borders (13 500 documents), 64 counter-property combinations, and 20808 generated-content documents (::before of one or two items and ::after of one item over 17 kinds: the four quote keywords, strings, counters, attr() with string and url types, present and missing, content() of four kinds; under four values of quotes), 88 list-marker documents (11 list-style-type values incl. empty strings and counter styles with empty symbols x position x 4 list-item counter settings), 8 000 three-row tables (first cell of each row with rowspan in 0, 1, 2, 3, 5 and colspan in 1, 2; one or two cells per row): no panic, the root is a block
+//@ bounded vBuildSmallTrees BuildFormattingStructure on every document of three elements (chain and fork) over 15 display values, with separated and collapsed borders (13 500 documents), 64 counter-property combinations, and 20808 generated-content documents (::before of one or two items and ::after of one item over 17 kinds: the four quote keywords, strings, counters, attr() with string and url types, present and missing, content() of four kinds; under four values of quotes), 88 list-marker documents (11 list-style-type values incl. empty strings and counter styles with empty symbols x position x 4 list-item counter settings), 8 000 three-row tables (first cell of each row with rowspan in 0, 1, 2, 3, 5 and colspan in 1, 2; one or two cells per row), 10 tables with spans of 2 000 000 000: no panic, the root is a block
 //@   props C01
 
 // css-page-3 §5.3: a box starts on the page its FIRST in-flow child starts on and ends on the page its LAST
